@@ -41,12 +41,13 @@ func (o *Obligation) Key() string {
 
 // Check accumulates the obligations of one property run.
 type Check struct {
-	P        *Prog
-	Property string
-	Obs      []*Obligation
-	Notes    []string
-	Omitted  []string
-	excUsed  map[string]bool
+	P         *Prog
+	Property  string
+	Obs       []*Obligation
+	Notes     []string
+	Omitted   []string
+	excUsed   map[string]bool
+	SkipRules map[string]bool // rules of a borrowed group that this property does not rest on
 }
 
 func NewCheck(p *Prog, prop string) *Check {
@@ -55,6 +56,10 @@ func NewCheck(p *Prog, prop string) *Check {
 
 func (c *Check) add(o *Obligation) *Obligation {
 	o.Variant = c.P.Variant.Name
+	if c.SkipRules[o.Rule] {
+		// a shared group is borrowed by a property that does not rest on this rule
+		return o
+	}
 	// exceptions turn a violated/undecided obligation into an excepted one
 	if o.Status == StViolated || o.Status == StUndecided {
 		if reason, ok := lookupException(o); ok {
